@@ -90,6 +90,9 @@ func c04Body(sc *WF) Verdict {
 	for r := 0; r < sc.runs(); r++ {
 		rr := x.run(context.Background())
 		mr := m.run()
+		if runaway(rr.Panic) {
+			return ok(false, "scenario-did-not-terminate") // C03/C10 territory, see runaway()
+		}
 		if rr.Panic != "" {
 			return bad("C04:panic", "run panicked: %s", rr.Panic)
 		}
